@@ -4,6 +4,7 @@ import (
 	"bytes"
 	"context"
 	"fmt"
+	"github.com/itchio/lake/tlc"
 	"github.com/itchio/savior"
 	"io"
 	"path/filepath"
@@ -132,7 +133,7 @@ func subjSignatureGuard(stream []byte, dir string) error {
 		return err
 	}
 	defer sk.Close()
-	for i := 0; i < len(c.Files) && i < 3; i++ {
+	for i := 0; i < len(c.Files) && i < 6; i++ {
 		r, err := sk.GetReader(int64(i))
 		if err != nil {
 			continue
@@ -662,6 +663,47 @@ func TestC10(t *testing.T) {
 				Ev.Fault("signature_hash_count_changed", 1)
 				p, h := guarded(func() { subjSignature(stream) })
 				if report("C10/signature", "ReadSignature+ComputeHashInfo", fmt.Sprintf("signature with %+d hashes", delta), p, h, stream) {
+					return
+				}
+			}
+		}
+		// a signature that is complete in itself but lists fewer files than the build it is held
+		// against (its last file gone, or its first, with their hashes)
+		if err == nil && len(rs.Container.Files) >= 1 {
+			for _, dropFirst := range []bool{false, true} {
+				c2 := proto.Clone(rs.Container).(*tlc.Container)
+				nb := func(sz int64) int {
+					if sz == 0 {
+						return 1
+					}
+					return int((sz + BlockSize - 1) / BlockSize)
+				}
+				hs := rs.Hashes
+				if dropFirst {
+					k := nb(c2.Files[0].Size)
+					if k > len(hs) {
+						continue
+					}
+					c2.Files, hs = c2.Files[1:], hs[k:]
+				} else {
+					k := nb(c2.Files[len(c2.Files)-1].Size)
+					if k > len(hs) {
+						continue
+					}
+					c2.Files, hs = c2.Files[:len(c2.Files)-1], hs[:len(hs)-k]
+				}
+				body := []proto.Message{c2}
+				for _, h := range hs {
+					body = append(body, h)
+				}
+				stream := encodeStream(MagicSignature, &pwr.SignatureHeader{Compression: comp}, comp, body)
+				Ev.Fault("signature_lists_fewer_files_than_the_build", 1)
+				p, h := guarded(func() { subjSignature(stream) })
+				if report("C10/signature", "ReadSignature+ComputeHashInfo", fmt.Sprintf("signature without its %s file", map[bool]string{true: "first", false: "last"}[dropFirst]), p, h, stream) {
+					return
+				}
+				p, h = guarded(func() { subjSignatureGuard(stream, newDir) })
+				if report("C10/signature", "safekeeper over the signed build", fmt.Sprintf("signature without its %s file", map[bool]string{true: "first", false: "last"}[dropFirst]), p, h, stream) {
 					return
 				}
 			}
